@@ -1465,9 +1465,7 @@ _add("C05", "partial", [
     "hex4 and a naive scan (no theorem equates the machine's hex4 with Spec.Str.hex4Val; both are run against the crate)",
 ])
 _add("C06", "partial", [
-    "c06_typed: for the 128-bit targets Model.TypedInt.deIntText is written as the specification minus the -0 line, so that branch of the "
-    "theorem is true by construction; the real do_deserialize_i128 / u128 is Model.Typed.deInt128, covered by c06_via_value (textInt) and "
-    "c10_typed_prefix. IntTy has ten widths (isize / usize are not separate: 64-bit target)",
+    "IntTy has ten widths (isize / usize are not separate: 64-bit target)",
 ])
 # C07: both items of the honesty pass are closed (wip-range): c07_bhcomp_calls_in_range / c07_correct_limbs compose the limb-level
 # closure with c07_correct; c07_int_literals_nearest / c07_typed_nearest_all / c07_nearest_even_all / c07_exponent_overflow_spec
@@ -1524,7 +1522,6 @@ _add("C13", "partial", [
     "well-behaved Display (assumption)",
     "c13_read is near-definitional (runFault = feed with end-of-input replaced by Io); its content is the modelling claim that every state "
     "asks for another byte, tied by op rfault at every k",
-    "the error KIND is not part of the models' Io outcome ('carrying that error's kind' is checked by the harness: IO:<kind>); "
     "c13_typed_fault alone does not bound the error index - that follows from c13_typed_fault_eq + typed_within_input",
 ])
 _add("C16", "partial", [
@@ -1536,11 +1533,6 @@ _add("C16", "partial", [
     "false there, kernel-checked) and carries the float hypothesis apAccurate, discharged only under float_roundtrip (C07, literals "
     "below 2^29 - 20 bytes with the exponent digits inside de.rs's i32 guard); str::parse::<f64> is std's and ASSUMED correctly rounded "
     "(false for texts above ~655 KB: finding C20-as-f64-exponent-saturation); the ap configuration is part of the thorough tier only",
-])
-_add("C20", "partial", [
-    "'as_str(), Display and re-serialisation reproduce the literal exactly; parse-then-serialise changes nothing but whitespace': holds by "
-    "the serializer model's definition on Num.lit + c03_display_number; no text -> value -> text theorem is listed (c04_value_ap is value "
-    "-> text -> value)",
 ])
 
 # ---- gaps of the honesty pass closed by theorems (branch wip-c11b): C11 converse of eof_at_end, grammar reading without SideOK,
@@ -1677,3 +1669,87 @@ PROPS["C08"]["level_text"] += (
     "(c08_f32_once_typed_fails_on_large_int: finding C08-F2 on the typed path).")
 PROPS["C08"]["rule"] += (" Tag tiny-band: for each exponent -324..-343 the largest u64 significand below 2^-1075, its neighbours and "
     "random significands in the upper half of (2^-1076, 2^-1075), in every spelling.")
+
+# ---- gaps of the honesty pass closed by theorems (branch wip-smalls): C20 text -> value -> text; C05 bytes target; C13 kind;
+#      C06 128-bit typed path; C08 typed f32.
+PROPS["C20"]["lean_targets"] = PROPS["C20"]["lean_targets"][:-1] + ["SJ.Props.C20Text"] + PROPS["C20"]["lean_targets"][-1:]
+PROPS["C20"]["configs"] = dict(quick=["ap"], thorough=["ap", "frap", "poap"])
+PROPS["C20"]["rule"] += (" Op reprint also on 900 (thorough 6000) generated documents with objects and strings, blanks at every place the "
+    "grammar allows and inside string literals: half of them with distinct keys in the map's order and every string in the serializer's "
+    "spelling (the output must be the input minus insignificant whitespace), the others breaking one proviso each (keys out of order, a "
+    "duplicate key, another RFC 8259 spelling of a string: \\u0041, \\/, \\ud83d\\ude00); thorough also under preserve_order (poap).")
+PROPS["C20"]["level_text"] += (
+    " Text -> value -> text (Props/C20Text.lean over Spec/TextNorm.lean, Proofs/TextNorm.lean): c20_text_roundtrip - for every text bs the "
+    "parser accepts under arbitrary_precision, with t its syntax tree and v the value: to_string(v) succeeds and is (1) always the compact "
+    "rendering of v = Spec.Canon.canon t (members in the Map's order, a duplicate key collapsed to its last value), (2) normText t - the "
+    "input's tokens in the input's order, no whitespace, EVERY NUMBER LITERAL BYTE FOR BYTE, strings in the serializer's spelling - when "
+    "every object has distinct keys standing in ascending byte order (Spec.TextNorm.keysInMapOrder; under preserve_order distinctness "
+    "alone), (3) stripWs bs - the input with the whitespace outside string literals removed by an independent byte-level scan, nothing "
+    "else changed - when moreover the string literals are spelled as the serializer spells them (spelledCanonically: RFC 8259 allows "
+    "other spellings of the same string, \\u0041 or \\/, which do not survive). c20_text_roundtrip_ap: the same for the token-aware "
+    "model Model.MachineAp on inputs without a private-token first key (c01_ap_conservative). c20_number_display: a parsed number "
+    "literal p gives Num.lit p.bytes and as_str, Display (one write_str), to_string of the Number, of the Value in both formatters and "
+    "Value's Display all return exactly p.bytes. The executable statement of op reprint is now clause (2) / (3) on the tree found by "
+    "the independent recogniser, and the model column is serCompact (ofValue (parseTop doc)).")
+PROPS["C20"]["technique"] += ("; composition of parser soundness (C02), the serializer theorem for Value (C03) and a mutual induction over the "
+    "syntax tree (render of the canonical value = compact spelling of the tree; a member list in map order is the map it builds); "
+    "induction over derivations for the byte-level whitespace stripper")
+
+# C05 bytes clause (branch wip-smalls): independent WTF-8 specification + theorem on every input; finding for bare control characters
+PROPS["C05"]["lean_targets"] = PROPS["C05"]["lean_targets"][:-1] + ["SJ.Props.C05Bytes", "SJ.Props.C05BytesReaders"] + PROPS["C05"]["lean_targets"][-1:]
+PROPS["C05"]["partial"] = [x for x in PROPS["C05"]["partial"] if not x.startswith("bytes clause ('WTF-8 for unpaired surrogates")] + [
+    "bytes clause: c05_bytes_target_total characterises parse_str_raw on EVERY input by the independent Spec.Wtf8 (lex + decodeBytes) and "
+    "c05_bytes_target_readers carries it to both real scanners (through c09_slice_raw_refines / c09_io_raw_refines). ONE deviation from the "
+    "statement, open finding C05-bytes-control-char-accepted: 'the same decoding applies' keeps the rejection of a bare control character, "
+    "the crate's non-validating scanner (validate = false) copies it - the theorems describe the code (a raw item is any byte but quote and "
+    "backslash; witness c05_bytes_control_passes), op bytesctl reports the deviation. The borrowed flag of the raw variant is still "
+    "checked per case only (op rd R)",
+]
+PROPS["C05"]["rule"] += (" Op bytesctl: each of the 32 control bytes alone in a literal (and three of them in a context with an escape, a "
+    "multi-byte character and a lone surrogate escape) read as ByteBuf from str / slice / reader; 0x20 and 0x7f as controls of the check. "
+    "Op rd R additionally carries the executable bytes clause (Spec.Wtf8: decoded bytes, end offset, InvalidEscape / Eof position) on "
+    "every generated case.")
+PROPS["C05"]["level_text"] += (
+    " Bytes clause (Spec/Wtf8.lean, Proofs/Wtf8.lean, Props/C05Bytes.lean, Props/C05BytesReaders.lean): Spec.Wtf8.decodeBytes - raw bytes "
+    "copied (0x80-0xFF in any arrangement), simple escapes replaced, \\uXXXX -> UTF-8 of the code point, a high surrogate escape "
+    "immediately followed by a low one -> the four-byte UTF-8 of the scalar, ANY OTHER surrogate escape -> its three-byte generalized "
+    "UTF-8 (WTF-8) form ED A0..BF 80..BF (c05_bytes_wtf8_form) - and Spec.Wtf8.lex, the RFC 8259 item structure of an arbitrary byte "
+    "string. c05_bytes_target_total: Model.Typed.parseStrRaw (the automaton behind deserialize_bytes / deserialize_byte_buf) on EVERY "
+    "input, every source, configuration and fault mode, returns exactly decodeBytes of the items up to the closing quote with the unread "
+    "input and the index just past the quote; or InvalidEscape at the byte after a backslash that starts no escape / at the fourth byte "
+    "of a \\u group that is not four hex digits; or EofWhileParsingString at the end (Io for a failing reader). c05_bytes_target / "
+    "c05_bytes_target_only (a success is exactly a well-formed literal), c05_bytes_errors (no other error code: never a control-character, "
+    "surrogate or UTF-8 error), c05_bytes_entry (through deBytes), c05_bytes_raw_passthrough (a content without quote and backslash is "
+    "returned as it stands, UTF-8 or not), c05_bytes_lone_surrogate, c05_bytes_vs_str (whatever the validating parse_str accepts the "
+    "bytes decoder accepts with the same bytes, rest and position; c05_bytes_vs_str_spec: decodeItems = some s => decodeBytes = s), "
+    "c05_bytes_target_readers (the same characterisation for SliceRead / StrRead / IoRead::parse_str_raw as separately modelled). "
+    "c05_bytes_control_passes: the witness of finding C05-bytes-control-char-accepted (a bare line feed is copied by the bytes target, "
+    "rejected by the text target).")
+PROPS["C05"]["technique"] += ("; an independent WTF-8 decoding specification and a simulation of the raw-string automaton (pending-surrogate "
+    "formulation = look-ahead formulation) by strong induction on the input")
+
+# C13 reader kind (branch wip-smalls)
+PROPS["C13"]["lean_targets"] = PROPS["C13"]["lean_targets"][:-1] + ["SJ.Props.C13Kind"] + PROPS["C13"]["lean_targets"][-1:]
+PROPS["C13"]["gen_keys"] = PROPS["C13"]["gen_keys"] + ["iokind.", "IoKind"]
+PROPS["C13"]["level_text"] += (
+    " The KIND (Props/C13Kind.lean over Model/IoKind.lean, Gen/IoKind.lean): the models' Io outcomes carry no payload; "
+    "Model.IoKind.parseFaultK threads the failing read's io::Error through IoRead::next / peek (`Some(Err(err)) => Err(Error::io(err))`, "
+    "the one arm for a failed read in each: Gen.ioReadErrArms = 2), Error::io (stores it: Gen.errorIoStoresError), classify (Io), "
+    "io_error_kind (`Some(io_error.kind())`: Gen.ioErrorKindReturnsInner) and io::Error::from (gives it back), all four shapes "
+    "re-extracted from src/read.rs / src/error.rs on every run (c13_io_error_kind_link). c13_kind_preserved: the outcome is "
+    "Model.IoFault.parseFault's with the error attached; when that is Io, classify() = Io, io_error_kind() = Some(e.kind) - THAT "
+    "error's kind - and io::Error::from returns e; a parser error of the delivered bytes has io_error_kind() = None; "
+    "c13_kind_only_from_reader (a reported kind is the reader's); c13_typed_kind_preserved, c13_item_kind (typed targets, stream "
+    "items: by attachment). Thin by design - the content is the four extracted shapes; the driver's rfault model now prints IO:<kind> "
+    "from io_error_kind() of the model's outcome instead of echoing the case line.")
+
+# C06 128-bit typed path (branch wip-smalls)
+PROPS["C06"]["lean_targets"] = PROPS["C06"]["lean_targets"][:-1] + ["SJ.Props.C06Typed128"] + PROPS["C06"]["lean_targets"][-1:]
+PROPS["C06"]["level_text"] += (
+    " The 128-bit branch of c06_typed is a statement about Model.TypedInt.deIntText, which is written as the specification there; "
+    "Props/C06Typed128.lean ties it to the transcription: c06_typed_text - for every literal of the grammar, every width, source and "
+    "configuration, from_str::<w> as transcribed (Model.Typed.deTypedTop -> deInt -> deNumber / deInt128 = do_deserialize_i128 / u128: "
+    "scan_integer128 + str::parse, then end(); projected by Model.ViaValue.textInt) = deIntText on the literal's parts = specInt; "
+    "c06_typed_128 - the 128-bit case spelled out (integer literal, no minus sign for u128, -0 accepted as 0, exact range check; "
+    "deInt = deInt128 there); specInt_eq_targetInt - the specification of Model.TypedInt and the statement-level verdict "
+    "Spec.NumberAcc.targetInt of c06_via_value are the same function of the literal.")
